@@ -42,7 +42,13 @@ def pair(cfg, c, seed):
         bad.append(("structure-changed", f"MCMC steps/calls differ: {[int(v) for v in Ha['steps']]} vs {[int(v) for v in Hb['steps']]}"))
     ba, bb = np.array(Ha["beta"], float), np.array(Hb["beta"], float)
     if np.max(np.abs(ba - bb)) > 1e-9:
-        bad.append(("schedule-changed", f"temperature schedule differs by {np.max(np.abs(ba - bb)):.3g}: {ba[:6]} vs {bb[:6]}"))
+        # is the temperature the FIRST thing that differs (all earlier particles identical)?  Then the reweighting step decided
+        # differently on the same pool - that is not a rounding-induced accept/reject flip and needs no reproduction on other seeds
+        t0 = int(np.argmax(np.abs(ba - bb) > 1e-9))
+        same_prefix = all(Ha["u"][t].shape == Hb["u"][t].shape and np.max(np.abs(Ha["u"][t] - Hb["u"][t])) <= 1e-12 for t in range(t0))
+        key = "!schedule-depends-on-constant" if same_prefix else "schedule-changed"
+        bad.append((key, f"temperature schedule differs by {np.max(np.abs(ba - bb)):.3g} first at iteration {t0 + 1} ({ba[t0]!r} vs {bb[t0]!r}; "
+                    f"all particles of earlier iterations identical: {same_prefix})"))
     for t in range(Ta):
         if Ha["u"][t].shape != Hb["u"][t].shape or np.max(np.abs(Ha["u"][t] - Hb["u"][t])) > 1e-9:
             bad.append(("particles-changed", f"particles of iteration {t + 1} differ"))
@@ -75,6 +81,12 @@ def cell(cfg, c, seeds):
                 break
     if not bad:
         return [], T, 1
+    if any(k.startswith("!") for k, _ in bad):
+        # decisive: confirm determinism by repeating the very same pair once
+        b2, _ = pair(cfg, c, seeds[0])
+        if any(k.startswith("!") for k, _ in b2):
+            return [(k.lstrip("!"), w) for k, w in bad if k.startswith("!")], T, 2
+    bad = [(k.lstrip("!"), w) for k, w in bad]
     # reproduce on 3 further seeds
     rep = 0
     for sd in seeds[1:4]:
@@ -134,7 +146,16 @@ def run():
                     kernel=["rwm", "tpcn"][j % 2], resample=["mult", "syst"][(j // 2) % 2], clustering=bool((j // 2) % 2), mode=["vec", "scalar"][j % 2])
         tasks.append(("tvf.checks.c10:cell", dict(cfg=cfgw, c=float([1000.0, -800.0, 1e4, -1e5, 333.3, -12345.678][j % 6]),
                                                    seeds=[ck.subseed("weak", j, r) % 10 ** 6 for r in range(4)]), None))
-    for i in range(len(tasks) - npin - n32 - nsup - nweak):
+    # sharply peaked likelihoods (logL spans 1e4..1e6 over the prior): anything that scales a search resolution or a tolerance with
+    # the magnitude of logL instead of its range changes with the additive constant
+    npeak = ck.pick(8, 36)
+    for j in range(npeak):
+        cfgp = dict(target=["gauss2", "gauss4"][j % 2], tkw=dict(half=5.0, sd=[0.045, 0.03][j % 2]), N=[32, 48][j % 2], n_total=[96, 144][j % 2],
+                    kernel=["tpcn", "rwm"][j % 2], resample=["syst", "mult"][(j // 2) % 2], clustering=bool((j // 3) % 2), mode="vec",
+                    volume_variation=[None, 1.0][(j // 2) % 2])
+        tasks.append(("tvf.checks.c10:cell", dict(cfg=cfgp, c=float([1e4, -3e4, 1e5, -2e5, 2500.0, -1000.0, 3e4, -1e5][j % 8]),
+                                                   seeds=[ck.subseed("peak", j, r) % 10 ** 6 for r in range(4)]), None))
+    for i in range(len(tasks) - npin - n32 - nsup - nweak - npeak):
         if i % 3 == 1:     # a third of the small cells use an irrational shift as well
             tasks[i][1]["c"] = float(tasks[i][1]["c"] * math.sqrt(2) / 1.4)
     for i, st, val in farm.run(tasks, timeout=900, progress="C10"):
@@ -148,6 +169,8 @@ def run():
         bad, T, npairs = val
         if kw["cfg"].get("target") == "support" and abs(kw["c"]) >= 600:
             ck.event("pairs on a target with a zero-likelihood region shifted by |c| >= 650", 1)
+        if (kw["cfg"].get("tkw") or {}).get("half") == 5.0:
+            ck.event("pairs on a sharply peaked likelihood (logL range 1e4..1e6) with |c| from 1e3 to 2e5 (comparable to the range)", 1)
         if (kw["cfg"].get("tkw") or {}).get("sd", 0) >= 100:
             ck.event("pairs on a weakly informative likelihood (logL variation 1e-6..1e-3) with |c| >= 300", 1)
         if kw["cfg"].get("xdtype") is not None:
